@@ -63,6 +63,10 @@ def run_conversion(file_list, output_dir, report, source_format="XML"):
             outfile = os.path.join(output_dir, "%s_conv.xml" % out_name)
             try:
                 VerConf(file_path).write_to_file(outfile, source_format)
+                # The converter does not write files without odML content.
+                if not os.path.isfile(outfile):
+                    report.write("[Error] version converting file '%s': "
+                                 "'No odML content found, file skipped'\n" % file_path)
             except Exception as exc:
                 # Ignore files we cannot parse or convert
                 report.write("[Error] version converting file '%s': '%s'\n" %
